@@ -6,7 +6,7 @@
 //      (so a use after release is an ASan error) and log every call.  corrupt: comma list of  drop:<tag> | trunc:<tag>:<len> |
 //      set:<tag>:<off>:<byte>.   ops (slots k are small integers):
 //        seg:<k>:<enc>:<dir>:<fontslot|->:<fvslot|->:<hexunits>   gr_make_seg into slot k (an old segment there is destroyed first)
-//        dseg:<k>   font:<k>:<ppm>   dfont:<k>   fv:<k>:<langhex>   setfv:<k>:<featindex>:<value>   dfv:<k>
+//        dseg:<k>   font:<k>:<ppm>   hfont:<k>:<ppm> (advance callback)   dfont:<k>   fv:<k>:<langhex>   setfv:<k>:<featindex>:<value>   dfv:<k>
 //        label:<featindex>:<lang>:<enc>   vlabel:<featindex>:<setting>:<lang>:<enc>   info   just:<k>:<width>   break:<k>:<pos>
 //      at the end every remaining segment, font and feature value is destroyed, then the face.
 //      Output:  <id> API face=<ok|NULL> | <result per op> ... | LOG <G<tag>:<n> R<n> M F D ...> | LEAK=<0|1>
@@ -102,6 +102,9 @@ static void src_rel(const void *h, const void *p) {
     s->live.erase(i);
     free((void *)p);
 }
+
+// the advance callback of 'hfont' fonts: depends on the font size and the glyph id only
+static float hinted_advance(const void *h, gr_uint16 gid) { return *(const float *)h * (0.25f + float(gid % 11) * 0.07f); }
 
 // ------------------------------------------------------------------ dumps
 static std::string seg_dump(gr_segment *seg, const gr_face *face, const gr_font *font) {
@@ -204,6 +207,14 @@ static void run_api(const std::vector<std::string> &f) {
                 r = "seg=" + seg_dump(sg, face, fo);
             } else if (op == "dseg" && a.size() >= 2) { int sl = atoi(a[1].c_str()); if (segs.count(sl)) { gr_seg_destroy(segs[sl]); segs.erase(sl); r = "ok"; } else r = "none"; }
             else if (op == "font" && a.size() >= 3) { int sl = atoi(a[1].c_str()); if (!fonts.count(sl)) { gr_font *fo = gr_make_font((float)atof(a[2].c_str()), face); if (fo) fonts[sl] = fo; r = fo ? "ok" : "NULL"; } else r = "busy"; }
+            else if (op == "hfont" && a.size() >= 3) {          // a font with an application advance callback ("hinted"): a fixed function of ppm and glyph id
+                int sl = atoi(a[1].c_str());
+                if (!fonts.count(sl)) {
+                    static float hppm[64]; float *h = &hppm[sl & 63]; *h = (float)atof(a[2].c_str());
+                    gr_font_ops fops = { sizeof(gr_font_ops), hinted_advance, 0 };
+                    gr_font *fo = gr_make_font_with_ops(*h, h, &fops, face); if (fo) fonts[sl] = fo; r = fo ? "ok" : "NULL";
+                } else r = "busy";
+            }
             else if (op == "dfont" && a.size() >= 2) {
                 int sl = atoi(a[1].c_str()); bool used = false;
                 for (std::map<int, const gr_font *>::iterator i = segfont.begin(); i != segfont.end(); ++i) if (segs.count(i->first) && fonts.count(sl) && i->second == fonts[sl]) used = true;
